@@ -2,6 +2,7 @@ SPECIFICATION Spec
 CONSTANTS
   Scheds <- SchedsNested
   Blocking = {1}
+  Panicking = {}
   MaxNow = 6
   MaxStep = 3
   MaxOps = 5
